@@ -64,6 +64,12 @@ impl Monitor for Mon {
                 return None;
             }
             self.role = if self.liq_this_block[*v] { "bystander" } else { "next_block" };
+            if !pre.v[*v].cfg.fluctuation_limit_ratio.is_zero() {
+                // on a vAMM with a per-block band the height also selects the band's reference price: the twin would not isolate the rule
+                out.count("unrestricted_attempt_on_band_vamm_unasserted");
+                self.role = "";
+                return None;
+            }
             // what-if twin: same pre-state, same time, one block higher
             let snap = it.w.snapshot();
             let b = it.w.app.block_info();
@@ -154,7 +160,8 @@ impl Monitor for Mon {
 
 pub fn prop() -> HistProp {
     let mut p = CfgProfile::general();
-    p.fluct = false;
+    // 4 in 9 vAMMs have a per-block band (closes can turn partial there); the bystander clause is asserted on the others
+    p.fluct = true;
     let mut w = Weights::trading();
     w.open = 34;
     w.close = 14;
@@ -174,8 +181,8 @@ pub fn prop() -> HistProp {
         max_ops: (45, 100),
         cases: (12_000, 400_000),
         make: || Box::new(Mon::default()),
-        rule: "histories with many trades and liquidations (full and partial) per block on 1-2 vAMMs without fluctuation limit, few block boundaries. The harness keeps, per (vAMM, block), the set A of traders with a successful OpenPosition / partial ClosePosition in that block whose position still exists, the traders liquidated in it and whether a liquidation succeeded. Open/Close by a member of A after a liquidation in the same block must fail and leave every observable unchanged. For bystanders (not in A, not liquidated in the block) in a block with a liquidation, and for everybody in the block after one, the same call is also executed on a what-if twin of the same pre-state one block height later at the same block time: if it succeeds there it must succeed here. Traders liquidated in the block are not asserted either way. Non-trivial: a history with >= 1 restricted attempt and >= 1 bystander attempt in a liquidation block. Distinct by digest of (cfg, ops).",
-        assumptions: &["with no fluctuation limit configured nothing but the restriction rule depends on the block height, so a differing outcome of the twin is attributable to it"],
+        rule: "histories with many trades and liquidations (full and partial) per block on 1-2 vAMMs (4 in 9 with a per-block band, so that closes can turn partial), few block boundaries. The harness keeps, per (vAMM, block), the set A of traders with a successful OpenPosition / partial ClosePosition in that block whose position still exists, the traders liquidated in it and whether a liquidation succeeded. Open/Close by a member of A after a liquidation in the same block must fail and leave every observable unchanged. For bystanders (not in A, not liquidated in the block) in a block with a liquidation, and for everybody in the block after one, on vAMMs without a band the same call is also executed on a what-if twin of the same pre-state one block height later at the same block time: if it succeeds there it must succeed here. Traders liquidated in the block are not asserted either way. Non-trivial: a history with >= 1 restricted attempt and >= 1 bystander attempt in a liquidation block. Distinct by digest of (cfg, ops).",
+        assumptions: &["with no fluctuation limit configured nothing but the restriction rule depends on the block height, so a differing outcome of the twin is attributable to it; on vAMMs with a band the bystander clause is not asserted (counted)"],
         eval_counter: None,
     }
 }
